@@ -274,8 +274,15 @@ func (g *pg) stmt(depth int, inLoop bool, ind string) string {
 		return pre + ind + "for " + init + "; " + cond + "; " + loop + " " + body + "\n"
 	case 4, 5:
 		its := []string{"[1, 2, 3]", `"aé"`, `{"a": 1}`, "[]", `""`, "l", "s", g.pick(g.keys), `[[1], "s", nil]`}
-		if !g.noNestedUse { // (C14 compares two runs of the implementation: no order-dependent iteration there)
-			its = append(its, `{"a": 1, "b": 2}`, "m")
+		if !g.noNestedUse && g.rng.Intn(4) == 0 {
+			// maps with several keys: Go's iteration order is unspecified, so the body only has
+			// order-insensitive effects (commutative updates, per-key writes) and a fresh loop variable
+			mp := g.pick([]string{"m", `{"a": 1, "b": 2}`, `{"a": 1, "b": 2, "c": 3}`})
+			body := g.pick([]string{
+				"  n = n + 1\n", "  n = n + len(kk)\n  j = j + 1\n", "  if kk == \"a\" {\n    n = n + 5\n  }\n  j = j + 1\n",
+				"  acc[kk] = len(kk)\n", "  if kk in m {\n    i = i + 1\n  } else {\n    j = j + 1\n  }\n", "",
+			})
+			return ind + "acc = {}\n" + ind + "for kk in " + mp + " {\n" + body + "}\n" + ind + "p(\"mapiter\", n, i, j, acc)\n"
 		}
 		it := g.pick(its)
 		g.loopNest++
